@@ -1,5 +1,6 @@
 import PercevalModel.Proto
 import PercevalModel.Model.C14
+import PercevalModel.Model.C14Life
 
 /-!
   C14 driver.  One JSON request per line:
@@ -15,6 +16,15 @@ import PercevalModel.Model.C14
   {"op":"expr","params":[{"name":s,"lo":q|null,"hi":q|null,"periodic":b,"val":q|null}],
    "slots":[ast],"hist":[[name,q]]}
       -> {"vals":[[q|null per slot] initially and after every call],"acc":[q|null per call]}
+  {"op":"life","ops":[…]}   the Parameter lifecycle (`Model/C14Life.lean`), one session:
+      {"k":"new","x":name,"val":q|null,"lo":q|null,"hi":q|null,"periodic":b}      Parameter(...)
+      {"k":"set","x":name,"v":q,"force":b} {"k":"fix","x":name,"v":q} {"k":"reset","x":name} {"k":"per","x":name,"b":b}
+      {"k":"mk","c":cid,"slots":[{"lo":q,"hi":q,"dflt":q|null,"num":q,"key":s} | {"lo":q,"hi":q,"dflt":q|null,"ref":name}]}
+          a constructor: one `_set_parameter` per slot, in order
+      {"k":"assign","c":cid,"kv":[[name,q]]}  {"k":"resetall","c":cid}  {"k":"copy","c":cid} (observation only)
+      -> {"cur":R,"fix":R}  (pinned / repaired `_set_parameter`), R = {"out":[null|class|copy report per op],
+         "snaps":[after every op {"params":{name:[lo,hi,periodic,variable,value]},
+                                   "comps":{cid:{"vars":[..],"defined":b,"getvars":[null|"name"|q per slot]}}}]}
 -/
 
 open Lean PM PM.Proto PM.C14
@@ -77,6 +87,124 @@ partial def exprOf (j : Json) : Except String C14.Expr := do
     | "div" => return .div a b
     | _ => throw s!"bad op {op}"
 
+/-! ### lifecycle sessions -/
+
+structure LifeComp where
+  cid : String
+  keys : List String
+  dflts : List (Option ℚ)
+
+structure LifeSt where
+  st : LStore := fun _ => none
+  names : Array String := #[]
+  comps : Array LifeComp := #[]
+
+def parToJson (p : Par) : Json :=
+  Json.arr #[optRatToJson p.lo, optRatToJson p.hi, toJson p.periodic, toJson p.sym, optRatToJson p.val]
+
+def excToJson : Option Exc → Json
+  | none => .null
+  | some e => .str e.name
+
+def lifeSnap (s : LifeSt) : Json :=
+  let ps := s.names.toList.filterMap fun n => (s.st n).map fun p => (n, parToJson p)
+  let cs := s.comps.toList.map fun c =>
+    let gv := (c.keys.zip c.dflts).map fun (k, d) =>
+      match s.st k with
+      | none => Json.str "?"
+      | some p => match populate p d with
+        | none => Json.null
+        | some (.inl _) => Json.str "name"
+        | some (.inr v) => ratToJson v
+    (c.cid, Json.mkObj [("vars", toJson (vars s.st c.keys).eraseDups), ("defined", toJson (compDefined s.st c.keys)),
+      ("getvars", Json.arr gv.toArray)])
+  Json.mkObj [("params", Json.mkObj ps), ("comps", Json.mkObj cs)]
+
+def findComp (s : LifeSt) (cid : String) : Except String LifeComp :=
+  match s.comps.toList.find? (·.cid == cid) with
+  | some c => .ok c
+  | none => .error s!"unknown component {cid}"
+
+/-- run session operations until one raises -/
+def runStop (sound : Bool) (st : LStore) : List SOp → LStore × Option Exc
+  | [] => (st, none)
+  | op :: rest =>
+    match sstep sound st op with
+    | (st', none) => runStop sound st' rest
+    | (st', some e) => (st', some e)
+
+def lifeOp (sound : Bool) (s : LifeSt) (j : Json) : Except String (LifeSt × Json) := do
+  let k ← strOf j "k"
+  let reg (s : LifeSt) (x : String) : LifeSt := if s.names.contains x then s else { s with names := s.names.push x }
+  match k with
+  | "new" =>
+    let x ← strOf j "x"
+    let (st', o) := sstep sound s.st (.new x (← optRatOf j "val") (← optRatOf j "lo") (← optRatOf j "hi") (← boolOf j "periodic"))
+    return (reg { s with st := st' } x, excToJson o)
+  | "set" =>
+    let (st', o) := sstep sound s.st (.par (← strOf j "x") (.set (← ratOfJson (← j.getObjVal? "v")) (← boolOf j "force")))
+    return ({ s with st := st' }, excToJson o)
+  | "fix" =>
+    let (st', o) := sstep sound s.st (.par (← strOf j "x") (.fix (← ratOfJson (← j.getObjVal? "v"))))
+    return ({ s with st := st' }, excToJson o)
+  | "reset" =>
+    let (st', o) := sstep sound s.st (.par (← strOf j "x") .reset)
+    return ({ s with st := st' }, excToJson o)
+  | "per" =>
+    let (st', o) := sstep sound s.st (.par (← strOf j "x") (.setPeriodic (← boolOf j "b")))
+    return ({ s with st := st' }, excToJson o)
+  | "mk" =>
+    let cid ← strOf j "c"
+    let mut ops : List SOp := []
+    let mut keys : List String := []
+    let mut dflts : List (Option ℚ) := []
+    let mut s1 := s
+    for sl in ← arrOf j "slots" do
+      let lo ← ratOfJson (← sl.getObjVal? "lo")
+      let hi ← ratOfJson (← sl.getObjVal? "hi")
+      let arg ← match sl.getObjVal? "ref" with
+        | .ok (.str x) => pure (Arg.ref x)
+        | _ => do pure (Arg.num (← strOf sl "key") (← ratOfJson (← sl.getObjVal? "num")))
+      ops := ops ++ [slotOp lo hi arg]
+      keys := keys ++ [arg.key]
+      dflts := dflts ++ [← optRatOf sl "dflt"]
+      s1 := reg s1 arg.key
+    let (st', o) := runStop sound s.st ops
+    return ({ s1 with st := st', comps := s1.comps.push ⟨cid, keys, dflts⟩ }, excToJson o)
+  | "assign" =>
+    let c ← findComp s (← strOf j "c")
+    let kv ← (← arrOf j "kv").toList.mapM fun e => do
+      match e with
+      | .arr #[.str x, v] => return (x, ← ratOfJson v)
+      | _ => throw "bad assign entry"
+    let (st', o) := sstep sound s.st (.assign c.keys kv)
+    return ({ s with st := st' }, excToJson o)
+  | "resetall" =>
+    let c ← findComp s (← strOf j "c")
+    let (st', o) := runStop sound s.st (c.keys.map fun k => .par k .reset)
+    return ({ s with st := st' }, excToJson o)
+  | "copy" =>
+    let c ← findComp s (← strOf j "c")
+    let rep := c.keys.map fun k =>
+      match s.st k with
+      | none => Json.str "?"
+      | some p => match p.copy with
+        | .inl e => Json.str e.name
+        | .inr q => parToJson q
+    return (s, Json.arr rep.toArray)
+  | _ => throw s!"bad lifecycle op {k}"
+
+def lifeRun (sound : Bool) (ops : Array Json) : Except String Json := do
+  let mut s : LifeSt := {}
+  let mut outs : Array Json := #[]
+  let mut snaps : Array Json := #[]
+  for j in ops do
+    let (s', o) ← lifeOp sound s j
+    s := s'
+    outs := outs.push o
+    snaps := snaps.push (lifeSnap s)
+  return Json.mkObj [("out", Json.arr outs), ("snaps", Json.arr snaps)]
+
 def handleReq (j : Json) : Except String Json := do
   let op ← strOf j "op"
   match op with
@@ -137,6 +265,9 @@ def handleReq (j : Json) : Except String Json := do
       st := st.set x v
       vals := vals.push (Json.arr (slots.map fun e => optRatToJson (slotValue e st)))
     return Json.mkObj [("vals", Json.arr vals), ("acc", Json.arr acc)]
+  | "life" =>
+    let ops ← arrOf j "ops"
+    return Json.mkObj [("cur", ← lifeRun false ops), ("fix", ← lifeRun true ops)]
   | _ => throw s!"unknown op {op}"
 
 def handle (j : Json) : Json :=
